@@ -486,6 +486,14 @@ def rule_order(ctx, px, ts):
         if isinstance(st, ast.Return) and isinstance(st.value, ast.Call) and effects.dotted(st.value.func) == "sorted":
             if ("sort", True) in pyfront.guard_terms(gd):
                 sorted_ret = True
+        # `return sorted(x) if sort else x`
+        if isinstance(st, ast.Return) and isinstance(st.value, ast.IfExp):
+            ie = st.value
+            t_, a_, b_ = ie.test, ie.body, ie.orelse
+            if isinstance(t_, ast.UnaryOp) and isinstance(t_.op, ast.Not):
+                t_, a_, b_ = t_.operand, b_, a_
+            if ast.unparse(t_) == "sort" and isinstance(a_, ast.Call) and effects.dotted(a_.func) == "sorted":
+                sorted_ret = True
     ctx.ob(R, g.module.rel, f"{g.short} returns sorted(...) under `sort`", sorted_ret,
            "" if sorted_ret else "the sorted return under `if sort` vanished", g.node.lineno)
     nflt = 0
